@@ -25,6 +25,7 @@ def get_world(plan):
         from models.holpy import make_world
         w = make_world()
         w.uf_mul = plan.get('uf_mul', False)
+        w.feas_reduced = plan.get('feas_reduced', False)
         for extra in plan.get('models', []):
             importlib.import_module(extra).declare(w)
         for m in plan['specs']:
@@ -46,7 +47,7 @@ def _verify_one(q):
     from pyvc.verify import verify_function, verify_lemma
     try:
         w = get_world(_PLAN)
-        tmo = _PLAN.get('timeout_ms', 20000 if _PLAN['tier'] == 'quick' else 120000)
+        tmo = _PLAN.get('timeout_ms', 20000) if _PLAN['tier'] == 'quick' else max(120000, _PLAN.get('timeout_ms', 0))
         if q.startswith('lemma:'):
             r = verify_lemma(w, q[6:], timeout_ms=tmo)
         else:
